@@ -113,6 +113,10 @@ func (s State) Clone() State {
 type reader struct {
 	tx    *txfile.Tx
 	state State
+	// the byte slices the reader obtained from Page.Bytes the first time it looked at a page: they alias the
+	// memory mapping and must stay valid and unchanged until the reader is closed (a commit may only remap or
+	// truncate the file when no reader is open)
+	held map[uint64][]byte
 }
 
 // Engine runs histories.
@@ -1064,6 +1068,15 @@ func (e *Engine) checkReader(r *reader, what string) {
 		}
 		if !bytes.Equal(b, want) {
 			e.fail("%s: reader sees page %d different from its snapshot (first diff at %d)", what, id, firstDiff(b, want))
+		}
+		if h, ok := r.held[id]; !ok {
+			if r.held == nil {
+				r.held = map[uint64][]byte{}
+			}
+			r.held[id] = b
+		} else if !bytes.Equal(h, want) {
+			e.fail("%s: the bytes a reader obtained earlier for page %d changed while the reader is open (first diff at %d): the file was remapped or rewritten under it", what, id, firstDiff(h, want))
+			delete(r.held, id)
 		}
 	}
 }
